@@ -183,7 +183,10 @@ func analyze(evs []Event) *view {
 			}
 		case "exec":
 			if r := v.runs[e.Run]; r != nil {
-				r.Deps[e.Field] = e.Ver
+				// a field may be read several times in one computation (aliases): the oldest read counts
+				if old, ok := r.Deps[e.Field]; !ok || e.Ver < old {
+					r.Deps[e.Field] = e.Ver
+				}
 			}
 		case "mwend":
 			r := v.runs[e.Run]
@@ -446,11 +449,12 @@ func (p *player) play(i int, o Op) {
 		hit, rel := p.rec.PauseAsyncClose(o.ID)
 		p.hits[o.ID], p.releases[o.ID] = hit, rel
 	case "awaitpause":
+		// wait (briefly) until the asynchronous close of o.ID is held; if none was spawned the pause stays armed
 		if hit := p.hits[o.ID]; hit != nil {
 			select {
 			case <-hit:
-			case <-time.After(p.timeout):
-				p.problem("harness-wait-timeout", "asynchronous close of "+o.ID+" never started")
+				p.rec.add(Event{Kind: "paused", ID: o.ID})
+			case <-time.After(500 * time.Millisecond):
 			}
 		}
 	case "release":
